@@ -87,6 +87,11 @@ pub mod verif {
         store::{MemoryStore, MemoryStoreConfig},
         types::Distance,
     };
+    pub use super::{
+        message::KademliaMessage,
+        query::{QueryAction, QueryEngine, VerifQueryDump},
+        types::{ConnectionType, KademliaPeer, Key},
+    };
 }
 
 mod schema {
